@@ -170,7 +170,7 @@ DEFAULT_KNOBS = dict(
     rowcol=True, unbounded=True, text=True, index=True, percent=True,
     abs_refs=True, sheet_refs=True, lead_consts=3,
     iferr=True, rowcol_noarg=True, union=True, sumproduct=True, stats=True,
-    lookup=True, reserve_name=True,
+    lookup=True, reserve_name=True, lexical=True,
 )
 
 
@@ -182,6 +182,7 @@ def draw_knobs(rnd, **override):
                  'iferr', 'rowcol_noarg', 'union', 'sumproduct', 'stats', 'lookup'):
         k[feat] = rnd.random() < 0.7
     k['reserve_name'] = rnd.random() < 0.3
+    k['lexical'] = rnd.random() < 0.4
     k['ranges'] = rnd.random() < 0.85
     k['p_const'] = rnd.choice((0.2, 0.35, 0.5))
     k.update(override)
@@ -396,8 +397,16 @@ class SpecGen:
                 n = rnd.choice(cnames)
                 return n, [self.names[n].replace('$', '')], []
         if roll < 0.9:
+            if self.k.get('lexical') and rnd.random() < 0.25:
+                # other spellings of a constant
+                return rnd.choice(('1E+2', '.5', '1e-3', '2.', 'SUM({1,2,3})', 'TRUE()', '(3)',
+                                   '+2', '1.50')), [], []
             return repr(rnd.choice((1, 2, 3, 0.5, 10, 0.25))), [], []
         if self.k['text']:
+            if self.k.get('lexical') and rnd.random() < 0.4:
+                # text that looks like what the code generator emits, quotes inside text
+                return rnd.choice(('"_C_(""S!A1"")"', '" _R_(""S!B1:B2"") "', '"a""b"', '"it\'s"',
+                                   '"x"")"', '"(A1:B2)"', '"S!A1"')), [], []
             return '"' + rnd.choice(('z', 'ab', '')) + '"', [], []
         return '2', [], []
 
@@ -569,6 +578,8 @@ class SpecGen:
             if p or d:
                 break
         d = [x for x in d if x != '@self']
+        if self.k.get('lexical') and self.rnd.random() < 0.2:
+            t = spaced(t, self.rnd)
         return '=' + t, uniq(p), uniq(d + self.declared_extra)
 
     # -- whole workbook ---------------------------------------------------------
@@ -801,6 +812,29 @@ class SpecGen:
             for r in range(row0, row0 + th):
                 self.add({'a': mk(sheet, r, col0 + tw), 'v': draw_const(rnd, ('num', 'float', 'text'))})
         return True
+
+
+def spaced(text, rnd):
+    """the same formula typed with blanks (and a line break) where Excel allows them: after
+    commas, around + and *, after an opening parenthesis - never inside text literals, never
+    next to what could be an intersection"""
+    out, in_str, mode = [], False, rnd.choice((1, 2, 3))
+    for i, ch in enumerate(text):
+        if ch == '"':
+            in_str = not in_str
+        if in_str:
+            out.append(ch)
+            continue
+        prev = text[i - 1] if i else ''
+        if ch == ',':
+            out.append(', ' if mode != 3 else ' ,')
+        elif ch in '+*' and prev not in 'Ee(' and i and mode != 3:
+            out.append(f' {ch} ')
+        elif ch == '(' and mode == 2 and prev.isalpha():
+            out.append('(\n')
+        else:
+            out.append(ch)
+    return ''.join(out)
 
 
 def wbgen_same_sheet(a, b):
